@@ -43,6 +43,7 @@ class PipeCore(object):
         self.calls = []           # (kind, detail) of every transport call
         self.hbuf = bytearray()
         self.hwho = set()
+        self.hbuf_reported = False
         self.connected = False
         self.written = 0
         self.mangle = None        # callable(meta) -> bytes, applied when a frame is taken off the wire
@@ -102,6 +103,10 @@ class PipeCore(object):
             return b''
         if not self.connected:
             raise SimReset('not connected')
+        if self.hbuf and not self.hbuf_reported:
+            # the host turns to reading while a frame it started is still incomplete: header and payload are not back-to-back
+            self.hbuf_reported = True
+            self.rec.ev('tx_garbage', reason='incomplete', pending=len(self.hbuf))
         if not self.cur:
             if not self.dev.wire and self.dev.lazy:
                 self.dev.pump()
@@ -125,10 +130,10 @@ class PipeCore(object):
         out = self.cur[:k]
         self.cur = self.cur[k:]
         if self.log_io or over:
-            self.rec.ev('br', n=n, k=k, over=over, left=avail)
+            self.rec.ev('br', n=n, k=k, over=over, left=avail, timeout_ms=-1 if timeout is None else int(round(timeout * 1000)))
         if not self.cur and k:
             m = self.cur_meta
-            self.rec.ev('rd', **m['pk'])
+            self.rec.ev('rd', _payload=m.get('payload', b''), **m['pk'])
             if self.on_frame:
                 self.on_frame(m)
         return out
@@ -140,7 +145,7 @@ class PipeCore(object):
             self.clock.advance(self.default_timeout if timeout is None else max(timeout, 0))
             return b''
         self.clock.advance(self.default_timeout if timeout is None else max(timeout, 0))
-        self.rec.ev('stall', n=n)
+        self.rec.ev('stall', n=n, timeout_ms=-1 if timeout is None else int(round(timeout * 1000)))
         raise self.exc_timeout('read timed out')
 
     def write(self, data, timeout):
